@@ -1058,7 +1058,9 @@ class GetItemAttributesCommand(Command):
     uid_counter: int = field(metadata=hci.metadata('>2'))
     # When attributes is empty, all attributes will be requested.
     attributes: Sequence[MediaAttributeId] = field(
-        metadata=MediaAttributeId.type_metadata(4, list_begin=True, list_end=True)
+        metadata=MediaAttributeId.type_metadata(
+            4, list_begin=True, list_end=True, byteorder='big'
+        )
     )
 
 
